@@ -129,34 +129,28 @@ class _OS:
 
 
 def bare_gear(c, cls):
-    """a real instance of `cls` carrying exactly the data snapshot/export/reset read (its constructor is verified in
-    contracts/gears.py; bypassing it here keeps these obligations free of the gear geometry)"""
+    """a real instance of `cls` built by its REAL constructor from LITERAL data (constant geometry: these obligations are
+    about selection, conversion and bookkeeping, not about the gear formulas -- those are contracts/gears.py) with every
+    optional datum present, so that it advertises every variable its class can record"""
     C = G.classes()[cls]
-    g = object.__new__(C)
-    g.__dict__["_pycv_bypassed_ctor"] = True      # see harness.call: a missing private attribute is then a harness limit
-    d = g.__dict__
-    d["_MechanicalObject__name"] = "gear"
-    for f in ("angular_position", "angular_speed", "angular_acceleration", "torque", "driving_torque", "load_torque"):
-        d[f"_RotatingObject__{f}"] = None
-    keys = list(VARS_BASE)
-    if cls in ("SpurGear", "HelicalGear", "WormWheel"):
-        d["_GearBase__module"] = H.mkq(c, "Length", "gear_m")
-        d["_GearBase__face_width"] = H.mkq(c, "Length", "gear_b")
-        d["_GearBase__elastic_modulus"] = H.mkq(c, "Stress", "gear_E") if cls != "WormWheel" else None
-        d["_GearBase__mating_role"] = None
-        d["_GearBase__tangential_force"] = None
-        d["_GearBase__bending_stress"] = None
-        keys += ["tangential force", "bending stress"]
-        if cls != "WormWheel":
-            d["_GearBase__contact_stress"] = None
-            keys.append("contact stress")
-    if cls == "WormGear":
-        d["_WormGear__reference_diameter"] = H.mkq(c, "Length", "gear_d")
-        d["_WormGear__tangential_force"] = None
-        d["_WormGear__mating_role"] = None
-        keys.append("tangential force")
-    d["_RotatingObject__time_variables"] = {k: [] for k in keys}
-    return g
+    J = H.lit(c, "InertiaMoment", 1, "kgm^2")
+    mm, bb, EE = H.lit(c, "Length", 1, "mm"), H.lit(c, "Length", 5, "mm"), H.lit(c, "Stress", 200, "GPa")
+    if cls == "Flywheel":
+        kw = dict(name="gear", inertia_moment=J)
+    elif cls == "SpurGear":
+        kw = dict(name="gear", n_teeth=20, inertia_moment=J, module=mm, face_width=bb, elastic_modulus=EE)
+    elif cls == "HelicalGear":
+        kw = dict(name="gear", n_teeth=20, inertia_moment=J, helix_angle=H.lit(c, "Angle", 20, "deg"), module=mm, face_width=bb, elastic_modulus=EE)
+    elif cls == "WormWheel":
+        kw = dict(name="gear", n_teeth=20, inertia_moment=J, helix_angle=H.lit(c, "Angle", 10, "deg"), pressure_angle=G.pressure_angle(c, 1),
+                  module=mm, face_width=bb)
+    else:
+        kw = dict(name="gear", n_starts=1, inertia_moment=J, helix_angle=H.lit(c, "Angle", 10, "deg"), pressure_angle=G.pressure_angle(c, 1),
+                  reference_diameter=H.lit(c, "Length", 10, "mm"))
+    st, r = H.call(C, **kw)
+    if st != "ok":
+        raise sym.EngineError(f"harness: {cls} with literal data was rejected by its constructor: {r!r}")
+    return r
 
 
 # ---- building a simulated powertrain ------------------------------------------------------------------------------------
@@ -169,11 +163,10 @@ def simulated(c, gear_cls, hist, gear_data=None, with_current=True):
         return None
     motor = b[0]
     gear = bare_gear(c, gear_cls)
-    motor.__dict__["_MotorBase__drives"] = gear
-    pt = object.__new__(PT.Powertrain)
-    pt.__dict__["_pycv_bypassed_ctor"] = True      # see harness.call: a missing private attribute is then a harness limit
-    pt.__dict__["_Powertrain__elements"] = (motor, gear)
-    pt.__dict__["_Powertrain__self_locking"] = False
+    G._set(motor, "drives", gear)
+    st_, pt = H.call(PT.Powertrain, motor)           # the REAL constructor assembles (motor, gear)
+    if st_ != "ok":
+        raise sym.EngineError(f"harness: Powertrain(motor -> {gear_cls}) was rejected: {pt!r}")
     times = []
     for k in range(hist):
         tq = H.mkq(c, "Time", f"t{k}", unit="sec" if k % 2 == 0 else "ms")
@@ -181,7 +174,8 @@ def simulated(c, gear_cls, hist, gear_data=None, with_current=True):
     if not c.concrete:
         for a, b_ in zip(times, times[1:]):
             c.assume(b_.si() > a.si() + 1)          # instants well separated (beyond the comparison tolerance)
-    pt.__dict__["_Powertrain__time"] = times
+    for tq in times:
+        pt.update_time(tq)                            # the recorded axis, through the public API
     samples = {}
     for e, tag in ((motor, "m"), (gear, "g")):
         for var in list(e.time_variables.keys()) + (["pwm"] if e is motor else []):
@@ -431,7 +425,8 @@ def job_solver_init():
         pt = s[0]
         st, r = H.call(S.Solver, pt)
         O.prove("Solver.__init__:accepts-a-powertrain-and-starts-unlocked",
-                st == "ok" and r._Solver__powertrain is pt and r._Solver__powertrain_is_locked is False, props=("C12", "C13"))
+                st == "ok" and any(v is pt for v in r.__dict__.values()) and any(v is False for v in r.__dict__.values()) and
+                not any(v is True for v in r.__dict__.values()), props=("C12", "C13"))
         st, r = H.call(S.Solver, object())
         O.prove("Solver.__init__:rejects-a-non-powertrain", st == "raise" and isinstance(r, TypeError), props=("C12",))
         O.cover("done")
